@@ -857,6 +857,36 @@ def rg2(m, run, methods):
                 n += 1
                 run.ob('RG2.no-unit-range-test-for-un-normalised-shapes', key, True, 'check_params is not reached; the request reaches %s' % (record[0][0] if record else 'the end of the method'),
                        'geomdl/%s.py in %s' % (fi.mod, fi.key))
+            # the other half of the clause: on a shape with normalised knot vectors the same methods do consult check_params, forward
+            # what it accepts and keep away from the evaluator what it rejects
+            if meth in ('evaluate_single', 'evaluate_list', 'derivatives'):
+                for verdict in (True, False):
+                    record2 = []
+                    obj2 = abstract_shape(cname, pdim, degs, sizes, True, record2)
+                    called2 = []
+                    ab2 = dict(STD_ABSTRACTED)
+                    ab2[('utilities', 'check_params')] = Py(lambda sk, node, *a, _c=called2, _v=verdict: (_c.append(node) or _v), 'check_params')
+                    sk2 = SK(m, ab2)
+                    raised = False
+                    try:
+                        sk2.call(fi, [obj2] + args, {})
+                    except Violation as v:
+                        raised = v.rule == 'RAISE'
+                        if not raised:
+                            continue
+                    except Unsupported:
+                        continue
+                    reached = [r_ for r_ in record2 if r_[0].startswith('evaluator.')]
+                    n += 1
+                    if verdict:
+                        ok2 = bool(called2) and bool(reached) and not raised
+                        msg = 'parameters inside [0, 1] are checked and evaluated' if ok2 else (
+                            'on a normalised shape %s' % ('the parameters are never tested against [0, 1]' if not called2 else 'parameters that pass the [0, 1] test do not reach the evaluator'))
+                    else:
+                        ok2 = bool(called2) and not reached
+                        msg = 'parameters outside [0, 1] are rejected / skipped' if ok2 else (
+                            'on a normalised shape parameters that fail the [0, 1] test %s' % ('still reach the evaluator' if called2 else 'are never tested'))
+                    run.ob('RG2.unit-range-test-for-normalised-shapes', '%s :: check_params says %s' % (key, verdict), ok2, msg, 'geomdl/%s.py:%d in %s' % (fi.mod, fi.node.lineno, fi.key))
     return n
 
 
